@@ -369,6 +369,8 @@ func (f *FileInfo) ExportOptions(tx *Transaction) option.ExportOptions {
 	ops.EncloseAll = f.EncloseAll
 	ops.JsonEscape = f.JsonEscape
 	ops.PrettyPrint = f.PrettyPrint
+	// Colours are for the terminal: a table file never gets escape sequences.
+	ops.Color = false
 	return ops
 }
 
